@@ -552,7 +552,7 @@ def _fancy_toggles(ctx: Ctx) -> None:
             defs = {}
             grown_in_loop = set()
             pm = parent_map(fn)
-            for n in walk_no_nested(fn):
+            for n in ast.walk(fn):
                 if isinstance(n, ast.Assign) and len(n.targets) == 1 and isinstance(n.targets[0], ast.Name):
                     defs.setdefault(n.targets[0].id, []).append(n.value)
                 grow = None
@@ -582,7 +582,7 @@ def _fancy_toggles(ctx: Ctx) -> None:
                 if isinstance(e, ast.Call):
                     return any(collection_over_edges(a, depth + 1) for a in e.args)
                 return False
-            for n in walk_no_nested(fn):
+            for n in ast.walk(fn):            # nested helper functions included
                 tgt = None
                 if isinstance(n, ast.Assign) and isinstance(n.targets[0], ast.Subscript):
                     v = ast.unparse(n.value).replace(' ', '')
